@@ -18,7 +18,8 @@ pub fn prop() -> Prop {
                supersets, disjoint), key paths by random walk into and past scalars, nulls planted by the tree \
                generator at every depth, new values of every kind, build_array from 0-6 parts, build_object \
                from 0-6 or 30-70 (key, part) pairs in arbitrary order, keys distinct or (minority) repeated with the last value winning. Each editor's appended bytes \
-               are compared with enc(tree edit) and its Result with the documented error; on error the buffer \
+               are compared with enc(tree edit) and its Result with the documented error; every successful edit is repeated \
+               into a buffer that already holds an earlier result and must append the same bytes there; on error the buffer \
                (pre-filled) must be unchanged. Non-trivial = some editor changed the document or returned a \
                documented error, and the document has depth >= 2 or more than one child.",
         assumptions: &["tree edits in treefn.rs are the meaning of each editor (from the statement and doc comments)"],
